@@ -611,3 +611,9 @@ T("C10", "serial-before-connect", CD, '            self._sock.connect(self._cfg[
 M("C15", "shared-default-route", CD, '            _path = [PortSegment("bp", 0)] if auto_slot else []', '            _path = DEFAULT_SLOT_ROUTE if auto_slot else []', ["D15.2"], more=[(CD, "def parse_cip_route(", 'DEFAULT_SLOT_ROUTE = [PortSegment("bp", 0)]\n\n\ndef parse_cip_route(')])
 T("C15", "default-route-copied", CD, '            _path = [PortSegment("bp", 0)] if auto_slot else []', '            _path = list(DEFAULT_SLOT_ROUTE) if auto_slot else []', more=[(CD, "def parse_cip_route(", 'DEFAULT_SLOT_ROUTE = (PortSegment("bp", 0),)\n\n\ndef parse_cip_route(')])
 T("C15", "shortcut-branches-reordered", CD, '        if not segments:\n            _path = [PortSegment("bp", 0)] if auto_slot else []\n        elif len(segments) == 1 and auto_slot:\n            _path = [PortSegment("bp", segments[0])]', '        if auto_slot and len(segments) == 1:\n            _path = [PortSegment("bp", segments[0])]\n        elif not segments:\n            _path = [PortSegment("bp", 0)] if auto_slot else []')
+
+# D12.2 upper bound of the header wait, D12.6 progress
+M("C12", "header-wait-25", SOCK, "            while len(data) < HEADER_SIZE:", "            while len(data) <= HEADER_SIZE:", ["D12.2"])
+M("C12", "header-loop-no-append", SOCK, "            while len(data) < HEADER_SIZE:\n                data += self._recv(256)", "            while len(data) < HEADER_SIZE:\n                self._recv(256)", ["D12.6"])
+M("C12", "body-loop-conditional-append", SOCK, "            while len(data) - HEADER_SIZE < data_len:\n                data += self._recv(256)", "            while len(data) - HEADER_SIZE < data_len:\n                chunk = self._recv(256)\n                if len(chunk) > 1:\n                    data += chunk", ["D12.6"])
+T("C12", "header-wait-4", SOCK, "            while len(data) < HEADER_SIZE:", "            while len(data) < 4:")
